@@ -34,7 +34,7 @@ Proof. unfold obj_events. induction (seq 0 n) as [|j l IH]; cbn; auto. Qed.
 Lemma store_from_born L : forall pv vals bid m a,
   (length L <= length pv)%nat -> length vals = length L ->
   keep born (snd (fst (store_from L pv vals bid m a))) =
-    tag bid (obj_addrs ntc L (fst (place_from L pv (cnts_of vals) a)) (cnts_of vals)) /\
+    tag bid (obj_addrs (ntc false) L (fst (place_from L pv (cnts_of vals) a)) (cnts_of vals)) /\
   keep died (snd (fst (store_from L pv vals bid m a))) = [].
 Proof.
   induction L as [|p L IH]; intros pv vals bid m a Hl Hv; [split; reflexivity|].
@@ -44,7 +44,7 @@ Proof.
                  (align_if (pt <? pal p) (pal p) a + Z.of_nat (length f) * psz p)
                  ltac:(cbn in Hl; lia) ltac:(cbn in Hv; lia)).
   destruct (store_from L pv vals bid _ _) as [[m2 evs2] e]. cbn [fst snd] in *.
-  destruct IH as [I1 I2]. rewrite !keep_app, I1, I2, tag_app. destruct (ntc p).
+  destruct IH as [I1 I2]. rewrite !keep_app, I1, I2, tag_app. destruct (ntc _ p).
   - rewrite born_obj_events_ctor, died_obj_events_ctor, Nat2Z.id. split; reflexivity.
   - split; reflexivity.
 Qed.
@@ -88,13 +88,13 @@ Qed.
 
 Lemma relocate_fields_born mv sbid bid L : forall xs cnts ms m,
   length xs = length L -> length cnts = length L -> Forall (fun c => 0 <= c) cnts ->
-  keep born (snd (relocate_fields mv L (combine xs cnts) sbid bid ms m 0)) = tag bid (obj_addrs ntc L xs cnts) /\
+  keep born (snd (relocate_fields mv L (combine xs cnts) sbid bid ms m 0)) = tag bid (obj_addrs (ntc mv) L xs cnts) /\
   keep died (snd (relocate_fields mv L (combine xs cnts) sbid bid ms m 0)) = [].
 Proof.
   induction L as [|p L IH]; intros xs cnts ms m Hx Hc Hn; [split; reflexivity|].
   destruct xs as [|x xs]; [discriminate|]. destruct cnts as [|c cnts]; [discriminate|].
   cbn [combine relocate_fields obj_addrs]. inversion Hn; subst.
-  destruct (ntc p).
+  destruct (ntc _ p).
   - pose proof (relocate_objs_born mv p sbid bid (Z.to_nat c) ms m x (x + 0)) as Ho.
     destruct (relocate_objs mv p sbid bid ms m x (x + 0) (Z.to_nat c)) as [[ms1 m1] e1]. cbn [snd] in Ho.
     specialize (IH xs cnts ms1 m1 ltac:(cbn in Hx; lia) ltac:(cbn in Hc; lia) ltac:(assumption)).
@@ -111,14 +111,14 @@ Qed.
 Fixpoint agree (L : list param) (T : list (Z * Z)) (m m' : mem) : Prop :=
   match L, T with
   | p :: L', (x, c) :: T' =>
-      (ntc p = false -> forall y, x <= y < x + c * psz p -> m' y = m y) /\ agree L' T' m m'
+      (ntc true p = false -> forall y, x <= y < x + c * psz p -> m' y = m y) /\ agree L' T' m m'
   | _, _ => True
   end.
 
 (* the parameter in front of a VaryingSize one - it holds the size - is trivially copyable *)
 Fixpoint cft (L : list param) : bool :=
   match L with
-  | p :: (q :: _) as L' => (if is_varying q then negb (ntc p) else true) && cft L'
+  | p :: (q :: _) as L' => (if is_varying q then negb (ntc true p) else true) && cft L'
   | _ => true
   end.
 
@@ -214,9 +214,9 @@ Proof.
   - apply (IH cnts xs m m1 m2 (x0 + c * psz p) hi HF ltac:(assumption) Ho); [|exact Ar]. intros y Hy. apply Hm. lia.
 Qed.
 
-Lemma relocate_fields_src_frame mv sbid bid L : forall cnts xs ms m lo hi,
+Lemma relocate_fields_src_frame sbid bid L : forall cnts xs ms m lo hi,
   Forall wfp L -> Forall (fun c => 0 <= c) cnts -> ordered_from lo (extents L cnts xs) hi ->
-  let ms' := fst (fst (relocate_fields mv L (combine xs cnts) sbid bid ms m 0)) in
+  let ms' := fst (fst (relocate_fields true L (combine xs cnts) sbid bid ms m 0)) in
   (forall y, ~ (lo <= y < hi) -> ms' y = ms y) /\ agree L (combine xs cnts) ms ms'.
 Proof.
   induction L as [|p L IH]; intros cnts xs ms m lo hi HF Hc Ho; cbv zeta; [split; [reflexivity|exact I]|].
@@ -224,17 +224,17 @@ Proof.
   cbn [combine relocate_fields agree]. cbn [extents ordered_from] in Ho. destruct Ho as (H1 & H2 & Ho).
   apply Forall_cons_iff in HF. destruct HF as [[Hs _] HF]. inversion Hc; subst.
   pose proof (ordered_from_le _ _ _ Ho) as Hle.
-  destruct (ntc p) eqn:Hn.
-  - pose proof (fun y => relocate_objs_src_frame mv p sbid bid (Z.to_nat c) ms m x0 (x0 + 0) y Hs) as Hfr.
+  destruct (ntc _ p) eqn:Hn.
+  - pose proof (fun y => relocate_objs_src_frame true p sbid bid (Z.to_nat c) ms m x0 (x0 + 0) y Hs) as Hfr.
     rewrite Z2Nat.id in Hfr by lia.
-    destruct (relocate_objs mv p sbid bid ms m x0 (x0 + 0) (Z.to_nat c)) as [[ms1 m1] e1]. cbn [fst] in Hfr.
+    destruct (relocate_objs true p sbid bid ms m x0 (x0 + 0) (Z.to_nat c)) as [[ms1 m1] e1]. cbn [fst] in Hfr.
     specialize (IH cnts xs ms1 m1 (x0 + c * psz p) hi HF ltac:(assumption) Ho). cbv zeta in IH.
-    destruct (relocate_fields mv L (combine xs cnts) sbid bid ms1 m1 0) as [[ms2 m2] e2]. cbn [fst] in *.
+    destruct (relocate_fields true L (combine xs cnts) sbid bid ms1 m1 0) as [[ms2 m2] e2]. cbn [fst] in *.
     destruct IH as [I1 I2]. split; [|split; [discriminate|]].
     + intros y Hy. rewrite I1 by lia. apply Hfr. lia.
     + apply (agree_base L cnts xs ms ms1 ms2 (x0 + c * psz p) hi HF ltac:(assumption) Ho); [|exact I2]. intros y Hy. apply Hfr. lia.
   - specialize (IH cnts xs ms m (x0 + c * psz p) hi HF ltac:(assumption) Ho). cbv zeta in IH.
-    destruct (relocate_fields mv L (combine xs cnts) sbid bid ms m 0) as [[ms2 m2] e2]. cbn [fst] in *.
+    destruct (relocate_fields true L (combine xs cnts) sbid bid ms m 0) as [[ms2 m2] e2]. cbn [fst] in *.
     destruct IH as [I1 I2]. split; [|split; [|exact I2]].
     + intros y Hy. apply I1. lia.
     + intros _ y Hy. apply I1. lia.
@@ -286,7 +286,7 @@ Section LifeHist.
   (* emplace_back constructs exactly the objects of the new element, where it is placed *)
   Lemma emplace_evs v t : tuple_ok L (fixed_counts L (v_fixed v)) 0 t ->
     let a := if has_varying L then first_align L (v_last v) else v_stride v * v_count v in
-    keep born (snd (emplace_back L v t)) = tag (bidn (v_bid v)) (eobjs ntc L a t) /\
+    keep born (snd (emplace_back L v t)) = tag (bidn (v_bid v)) (eobjs (ntc false) L a t) /\
     keep died (snd (emplace_back L v t)) = [].
   Proof.
     intros Ht. cbv zeta. unfold emplace_back, eobjs, store, place.
@@ -365,14 +365,14 @@ Section LifeHist.
 
   (* relocation: every object of every element is constructed once in the new block, at its
      old offset; nothing is destroyed by the relocation itself *)
-  Lemma relocate_elems_evs mv bid v l offs : RepO L v l offs ->
+  Lemma relocate_elems_evs bid v l offs : RepO L v l offs ->
     forall n k ms m,
     (k + n = length l)%nat ->
     (forall x, eo_end L 0 (firstn k offs) (firstn k l) <= x -> ms x = v_mem v x) ->
     (forall x, 0 <= x < dend L v -> m x = v_mem v x) ->
-    keep born (snd (relocate_elems mv L (set_mem v ms) bid m (Z.of_nat k) n)) =
-      tag bid (vobjs ntc L (skipn k offs) (skipn k l)) /\
-    keep died (snd (relocate_elems mv L (set_mem v ms) bid m (Z.of_nat k) n)) = [].
+    keep born (snd (relocate_elems true L (set_mem v ms) bid m (Z.of_nat k) n)) =
+      tag bid (vobjs (ntc true) L (skipn k offs) (skipn k l)) /\
+    keep died (snd (relocate_elems true L (set_mem v ms) bid m (Z.of_nat k) n)) = [].
   Proof.
     intros R.
     pose proof (r_order _ _ _ _ R) as Hord. pose proof (eo_length _ _ _ _ _ Hord) as Hlen.
@@ -396,12 +396,12 @@ Section LifeHist.
     pose proof (eo_bounds L Hwf _ _ _ _ Hord) as Hb.
     assert (Hin : elem_end L a t <= dend L v).
     { pose proof (Forall2_nth_ _ offs l 0 [] k Hb ltac:(lia)) as Hk'. cbv beta in Hk'. fold a t in Hk'. tauto. }
-    pose proof (relocate_fields_spec (v_mem v) mv (bidn (v_bid v)) bid L (cnts_of t) (fst (place L (cnts_of t) a)) ms m a (elem_end L a t)
+    pose proof (relocate_fields_spec (v_mem v) true (bidn (v_bid v)) bid L (cnts_of t) (fst (place L (cnts_of t) a)) ms m a (elem_end L a t)
                   HF (cnts_of_nonneg t) Hpo ltac:(intros y Hy; apply Hms; lia) ltac:(intros y Hy; apply Hm; lia)) as Hrf.
     cbv zeta in Hrf.
     destruct (place_len t a _ Htk) as [Hx Hc].
-    pose proof (relocate_fields_born mv (bidn (v_bid v)) bid L (fst (place L (cnts_of t) a)) (cnts_of t) ms m Hx Hc (cnts_of_nonneg t)) as Hev.
-    destruct (relocate_fields mv L (combine (fst (place L (cnts_of t) a)) (cnts_of t)) (bidn (v_bid v)) bid ms m 0) as [[ms1 m1] e1].
+    pose proof (relocate_fields_born true (bidn (v_bid v)) bid L (fst (place L (cnts_of t) a)) (cnts_of t) ms m Hx Hc (cnts_of_nonneg t)) as Hev.
+    destruct (relocate_fields true L (combine (fst (place L (cnts_of t) a)) (cnts_of t)) (bidn (v_bid v)) bid ms m 0) as [[ms1 m1] e1].
     cbn [fst snd] in Hrf, Hev. destruct Hrf as (F1 & F2 & _). destruct Hev as [V1 V2].
     change (set_mem (set_mem v ms) ms1) with (set_mem v ms1).
     replace (Z.of_nat k + 1) with (Z.of_nat (S k)) by lia.
@@ -409,7 +409,7 @@ Section LifeHist.
     assert (Hms1 : forall y, eo_end L 0 (firstn (S k) offs) (firstn (S k) l) <= y -> ms1 y = v_mem v y).
     { intros y Hy. rewrite eo_end_firstn_S in Hy by lia. fold a t in Hy. apply F1. exact Hy. }
     specialize (IH Hms1 ltac:(intros y Hy; rewrite F2; apply Hm; exact Hy)).
-    destruct (relocate_elems mv L (set_mem v ms1) bid m1 (Z.of_nat (S k)) n) as [[s2 m2] e2]. cbn [fst snd] in *.
+    destruct (relocate_elems true L (set_mem v ms1) bid m1 (Z.of_nat (S k)) n) as [[s2 m2] e2]. cbn [fst snd] in *.
     destruct IH as [I1 I2].
     rewrite (skipn_nth_cons 0 k offs) by lia. rewrite (skipn_nth_cons ([] : tuple) k l) by lia. fold a t.
     cbn [vobjs]. rewrite tag_app, !keep_app, V1, V2, I1, I2. split; reflexivity.
@@ -437,12 +437,12 @@ Section LifeHist.
 
   (* after the relocation the source still holds every field of a trivially constructible
      type of every element *)
-  Lemma relocate_elems_src mv bid v l offs : RepO L v l offs ->
+  Lemma relocate_elems_src bid v l offs : RepO L v l offs ->
     forall n k ms m,
     (k + n = length l)%nat ->
     (forall x, eo_end L 0 (firstn k offs) (firstn k l) <= x -> ms x = v_mem v x) ->
     (forall j, (j < k)%nat -> agree L (etab (nth j offs 0) (nth j l [])) (v_mem v) ms) ->
-    exists msf, fst (fst (relocate_elems mv L (set_mem v ms) bid m (Z.of_nat k) n)) = set_mem v msf /\
+    exists msf, fst (fst (relocate_elems true L (set_mem v ms) bid m (Z.of_nat k) n)) = set_mem v msf /\
       forall j, (j < length l)%nat -> agree L (etab (nth j offs 0) (nth j l [])) (v_mem v) msf.
   Proof.
     intros R.
@@ -464,9 +464,9 @@ Section LifeHist.
     rewrite (load_table L Hwf (v_fixed v) ms a t Htk Hel').
     pose proof (place_ordered L (cnts_of t) a Hwf (tuple_ok_cnt_ok L _ _ t Htk) ltac:(lia) HaS) as Hpo.
     fold (elem_end L a t) in Hpo.
-    pose proof (relocate_fields_src_frame mv (bidn (v_bid v)) bid L (cnts_of t) (fst (place L (cnts_of t) a)) ms m a (elem_end L a t)
+    pose proof (relocate_fields_src_frame (bidn (v_bid v)) bid L (cnts_of t) (fst (place L (cnts_of t) a)) ms m a (elem_end L a t)
                   HF (cnts_of_nonneg t) Hpo) as Hsf. cbv zeta in Hsf.
-    destruct (relocate_fields mv L (combine (fst (place L (cnts_of t) a)) (cnts_of t)) (bidn (v_bid v)) bid ms m 0) as [[ms1 m1] e1].
+    destruct (relocate_fields true L (combine (fst (place L (cnts_of t) a)) (cnts_of t)) (bidn (v_bid v)) bid ms m 0) as [[ms1 m1] e1].
     cbn [fst] in Hsf. destruct Hsf as [Sfr Sag].
     change (set_mem (set_mem v ms) ms1) with (set_mem v ms1).
     replace (Z.of_nat k + 1) with (Z.of_nat (S k)) by lia.
@@ -487,7 +487,7 @@ Section LifeHist.
         unfold etab.
         apply (agree_frame L _ _ (v_mem v) ms ms1 _ _ HF (cnts_of_nonneg _) Hpoj); [|exact (Hag j Hjk)].
         intros y Hy. apply Sfr. lia.
-    - destruct (relocate_elems mv L (set_mem v ms1) bid m1 (Z.of_nat (S k)) n) as [[s2 m2] e2]. cbn [fst] in *.
+    - destruct (relocate_elems true L (set_mem v ms1) bid m1 (Z.of_nat (S k)) n) as [[s2 m2] e2]. cbn [fst] in *.
       exists msf. split; [exact E|exact F].
   Qed.
 
@@ -571,9 +571,9 @@ Section LifeHist.
 
   (* insert_into: every object of every element is constructed once in the new block; with
      IsDestruct every object of the source is destroyed once *)
-  Lemma insert_into_evs mv destr v l offs bid junk : RepO L v l offs -> cft L = true ->
-    keep born (snd (insert_into mv destr L v bid junk)) = tag bid (vobjs ntc L offs l) /\
-    keep died (snd (insert_into mv destr L v bid junk)) =
+  Lemma insert_into_evs destr v l offs bid junk : RepO L v l offs -> cft L = true ->
+    keep born (snd (insert_into true destr L v bid junk)) = tag bid (vobjs (ntc true) L offs l) /\
+    keep died (snd (insert_into true destr L v bid junk)) =
       (if destr then tag (bidn (v_bid v)) (vobjs ntd L offs l) else []).
   Proof.
     intros R Hcft. unfold insert_into.
@@ -581,10 +581,10 @@ Section LifeHist.
     assert (Esm : set_mem v (v_mem v) = v) by (destruct v; reflexivity).
     assert (Hm0 : forall y, 0 <= y < dend L v -> mcopy (v_mem v) 0 junk 0 (dend L v) y = v_mem v y).
     { intros y Hy. rewrite mcopy_in by lia. f_equal. lia. }
-    destruct (all_ctriv L) eqn:Hct; destruct (all_dtriv L) eqn:Hdt; cbn [andb orb negb].
+    destruct (all_ctriv _ L) eqn:Hct; destruct (all_dtriv L) eqn:Hdt; cbn [andb orb negb].
     - (* nothing to construct, nothing to destroy *)
       rewrite orb_true_r. cbn [snd keep born died].
-      rewrite (vobjs_none ntc Hct), (vobjs_none ntd Hdt). destruct destr; split; reflexivity.
+      rewrite (vobjs_none (ntc true) Hct), (vobjs_none ntd Hdt). destruct destr; split; reflexivity.
     - rewrite orb_false_r. destruct destr; cbn [negb andb].
       + (* no relocation, the source is destroyed in place *)
         rewrite (rep_vsize L v l offs R), Nat2Z.id.
@@ -595,26 +595,26 @@ Section LifeHist.
           apply (load_table L Hwf); auto. }
         destruct (destruct_range L v 0 (length l)) as [s2 e2]. cbn [snd] in *.
         cbn [keep born died app]. rewrite ?keep_app, D, B. cbn [keep born died app].
-        rewrite (vobjs_none ntc Hct). cbn [skipn]. rewrite (firstn_all l). rewrite <- Hlen. rewrite (firstn_all offs).
+        rewrite (vobjs_none (ntc true) Hct). cbn [skipn]. rewrite (firstn_all l). rewrite <- Hlen. rewrite (firstn_all offs).
         split; reflexivity.
-      + cbn [snd keep born died]. rewrite (vobjs_none ntc Hct). split; reflexivity.
+      + cbn [snd keep born died]. rewrite (vobjs_none (ntc true) Hct). split; reflexivity.
     - (* relocation, nothing to destroy *)
       rewrite andb_false_r.
       rewrite (rep_vsize L v l offs R), Nat2Z.id.
-      pose proof (relocate_elems_evs mv bid v l offs R (length l) 0 (v_mem v) (mcopy (v_mem v) 0 junk 0 (dend L v))
+      pose proof (relocate_elems_evs bid v l offs R (length l) 0 (v_mem v) (mcopy (v_mem v) 0 junk 0 (dend L v))
                     ltac:(lia) ltac:(intros; reflexivity) Hm0) as Hre.
       rewrite Esm in Hre. change (Z.of_nat 0) with 0 in Hre. cbn [skipn] in Hre.
-      destruct (relocate_elems mv L v bid (mcopy (v_mem v) 0 junk 0 (dend L v)) 0 (length l)) as [[s1 m1] e1].
+      destruct (relocate_elems true L v bid (mcopy (v_mem v) 0 junk 0 (dend L v)) 0 (length l)) as [[s1 m1] e1].
       cbn [snd] in *. destruct Hre as [B1 D1].
       cbn [keep born died app]. rewrite ?app_nil_r, B1, D1. rewrite (vobjs_none ntd Hdt). destruct destr; split; reflexivity.
     - (* relocation, then the moved-from source is destroyed *)
       rewrite (rep_vsize L v l offs R), Nat2Z.id.
-      pose proof (relocate_elems_evs mv bid v l offs R (length l) 0 (v_mem v) (mcopy (v_mem v) 0 junk 0 (dend L v))
+      pose proof (relocate_elems_evs bid v l offs R (length l) 0 (v_mem v) (mcopy (v_mem v) 0 junk 0 (dend L v))
                     ltac:(lia) ltac:(intros; reflexivity) Hm0) as Hre.
-      destruct (relocate_elems_src mv bid v l offs R (length l) 0 (v_mem v) (mcopy (v_mem v) 0 junk 0 (dend L v))
+      destruct (relocate_elems_src bid v l offs R (length l) 0 (v_mem v) (mcopy (v_mem v) 0 junk 0 (dend L v))
                   ltac:(lia) ltac:(intros; reflexivity) ltac:(intros; lia)) as (msf & Esrc & Hag).
       rewrite Esm in Hre, Esrc. change (Z.of_nat 0) with 0 in Hre, Esrc. cbn [skipn] in Hre.
-      destruct (relocate_elems mv L v bid (mcopy (v_mem v) 0 junk 0 (dend L v)) 0 (length l)) as [[s1 m1] e1].
+      destruct (relocate_elems true L v bid (mcopy (v_mem v) 0 junk 0 (dend L v)) 0 (length l)) as [[s1 m1] e1].
       cbn [fst snd] in *. subst s1. destruct Hre as [B1 D1].
       destruct destr; cbn [andb].
       + change (vsize L (set_mem v msf)) with (vsize L v). rewrite (rep_vsize L v l offs R), Nat2Z.id.
@@ -704,25 +704,28 @@ Section LifeHist.
     | _ => True
     end.
 
-  Hypothesis Hsame : forall p, In p L -> ntc p = ntd p.
+  Hypothesis Hsame : forall mv p, In p L -> ntc mv p = ntd p.
   Hypothesis Hcft : cft L = true.
 
-  Lemma obj_addrs_same : forall L' xs cnts, (forall p, In p L' -> ntc p = ntd p) ->
-    obj_addrs ntc L' xs cnts = obj_addrs ntd L' xs cnts.
+  Lemma obj_addrs_same mv : forall L' xs cnts, (forall p, In p L' -> ntc mv p = ntd p) ->
+    obj_addrs (ntc mv) L' xs cnts = obj_addrs ntd L' xs cnts.
   Proof.
     induction L' as [|p L' IH]; intros xs cnts H; [reflexivity|].
     destruct xs; [reflexivity|]. destruct cnts; [reflexivity|]. cbn [obj_addrs].
     rewrite (H p (or_introl eq_refl)). f_equal. apply IH. intros q Hq. apply H. right; exact Hq.
   Qed.
 
-  Lemma vobjs_same : forall offs l, vobjs ntc L offs l = vobjs ntd L offs l.
+  Lemma vobjs_same mv : forall offs l, vobjs (ntc mv) L offs l = vobjs ntd L offs l.
   Proof.
     induction offs as [|a offs IH]; intros [|t l]; cbn [vobjs]; try reflexivity.
-    unfold eobjs. rewrite (obj_addrs_same L _ _ Hsame). f_equal. apply IH.
+    unfold eobjs. rewrite (obj_addrs_same mv L _ _ (Hsame mv)). f_equal. apply IH.
   Qed.
 
+  Lemma eobjs_same mv mv' a t : eobjs (ntc mv) L a t = eobjs (ntc mv') L a t.
+  Proof. unfold eobjs. rewrite (obj_addrs_same mv L _ _ (Hsame mv)), (obj_addrs_same mv' L _ _ (Hsame mv')). reflexivity. Qed.
+
   (* the objects the vector holds: every object of every element, in its current block *)
-  Definition live (v : vec) (l : list tuple) : list obj := tag (bidn (v_bid v)) (vobjs ntc L (cpos 0 l) l).
+  Definition live (v : vec) (l : list tuple) : list obj := tag (bidn (v_bid v)) (vobjs (ntc true) L (cpos 0 l) l).
 
   Lemma vobjs_split sel k offs l : length offs = length l ->
     vobjs sel L offs l = vobjs sel L (firstn k offs) (firstn k l) ++ vobjs sel L (skipn k offs) (skipn k l).
@@ -744,12 +747,12 @@ Section LifeHist.
   (* removing the elements from index k on: what is destroyed is what was live there *)
   Lemma live_drop v l offs k : RepO L v l offs -> (k <= length l)%nat ->
     Permutation (live v l) (tag (bidn (v_bid v)) (vobjs ntd L (skipn k offs) (skipn k l)) ++
-                            tag (bidn (v_bid v)) (vobjs ntc L (cpos 0 (firstn k l)) (firstn k l))).
+                            tag (bidn (v_bid v)) (vobjs (ntc true) L (cpos 0 (firstn k l)) (firstn k l))).
   Proof.
     intros R Hk. unfold live. rewrite <- (rep_cpos v l offs R).
     pose proof (eo_length _ _ _ _ _ (r_order _ _ _ _ R)) as Hlen.
-    rewrite (vobjs_split ntc k offs l Hlen), tag_app. rewrite cpos_firstn, <- (rep_cpos v l offs R).
-    rewrite <- vobjs_same. apply Permutation_app_comm.
+    rewrite (vobjs_split (ntc true) k offs l Hlen), tag_app. rewrite cpos_firstn, <- (rep_cpos v l offs R).
+    rewrite <- (vobjs_same true). apply Permutation_app_comm.
   Qed.
 
   Theorem lstep_balance junk v nb s o offs :
@@ -772,6 +775,7 @@ Section LifeHist.
       cbn [vstep sstep s_elems s_cap svalid] in *. destruct Hv as [Hcap Ht].
       split; [exact R'|]. split; [exact Hc'|]. split; [exact Hf'|].
       destruct (emplace_evs v t Ht) as [B D]. cbv zeta in B. rewrite (emplace_position v _ offs R) in B.
+      rewrite (eobjs_same false true) in B.
       assert (Hbid : v_bid (fst (emplace_back L v t)) = v_bid v).
       { unfold emplace_back. destruct (has_varying L); destruct (store _ _ _ _ _) as [[m evs] e]; reflexivity. }
       split; [rewrite Hbid; exact Hb|].
@@ -812,7 +816,7 @@ Section LifeHist.
       destruct (destruct_elem L v i) as [v1 e1]. cbn [fst snd] in *. subst v1.
       destruct (all_triv L) eqn:Htr.
       + (* a trivially relocatable list: nothing to construct or destroy at all *)
-        assert (Hnc : forallb (fun p => negb (ntc p)) L = true) by (unfold all_triv, all_ctriv in Htr; apply andb_true_iff in Htr; tauto).
+        assert (Hnc : forallb (fun p => negb (ntc true p)) L = true) by (unfold all_triv, all_ctriv in Htr; apply andb_true_iff in Htr; tauto).
         assert (Hnd : forallb (fun p => negb (ntd p)) L = true) by (unfold all_triv, all_dtriv in Htr; apply andb_true_iff in Htr; tauto).
         rewrite (move_forward_triv_eq L Htr).
         assert (Hmf : snd (move_forward_triv L (set_mem v m') (i + 1) i) = snd (move_forward_triv L (set_mem v m') (i + 1) i)) by reflexivity.
@@ -825,7 +829,7 @@ Section LifeHist.
         destruct Hbm as (Hb2 & Bm & Dm).
         rewrite resize_bid, Hb2. split; [exact Hb|].
         rewrite !keep_app, D, B, Bm, Dm. unfold live. rewrite resize_bid, Hb2.
-        rewrite !(vobjs_none ntc Hnc). unfold eobjs. rewrite (obj_addrs_none ntd L _ _ Hnd). apply Permutation_refl.
+        rewrite !(vobjs_none (ntc true) Hnc). unfold eobjs. rewrite (obj_addrs_none ntd L _ _ Hnd). apply Permutation_refl.
       + rewrite (move_forward_none L (set_mem v m') (i + 1) i Htr) by (change (vsize L (set_mem v m')) with (vsize L v); lia).
         cbn [fst snd]. rewrite resize_bid. cbn [v_bid set_mem]. split; [exact Hb|].
         rewrite !app_nil_r, D, B, app_nil_r.
@@ -880,7 +884,7 @@ Section LifeHist.
       destruct (reserve_rep_nt L Hwf v (s_elems s) n b junk nb (S nb) (ex_intro _ offs R)) as (H1 & H2 & H3).
       split; [exact H1|]. split; [lia|]. split; [exact H3|].
       unfold reserve in *. destruct (Z.ltb_spec (v_cap v) n) as [Hlt'|Hge].
-      + destruct (insert_into_evs true true v _ offs nb junk R Hcft) as [B D].
+      + destruct (insert_into_evs true v _ offs nb junk R Hcft) as [B D].
         destruct (insert_into true true L v nb junk) as [[v1 m] e1]. cbn [fst snd v_bid bidn] in *.
         split; [exists nb; split; [reflexivity|lia]|].
         destruct (keep_dealloc_tbl v) as [T1 T2]. destruct (keep_dealloc_mem v) as [M1 M2].
@@ -892,7 +896,7 @@ Section LifeHist.
         assert (Ht1 : keep born (if has_varying L then dealloc_tbl L v else []) = [] /\ keep died (if has_varying L then dealloc_tbl L v else []) = []).
         { destruct (has_varying L); [split; assumption|split; reflexivity]. }
         destruct Ht1 as [Tb Td]. rewrite Tb, Td, M1, M2. cbn [app]. rewrite !app_nil_r.
-        unfold live. cbn [v_bid bidn]. rewrite <- (rep_cpos v _ offs R). rewrite <- vobjs_same.
+        unfold live. cbn [v_bid bidn]. rewrite <- (rep_cpos v _ offs R). rewrite <- (vobjs_same true).
         apply Permutation_refl.
       + cbn [fst snd keep app]. split; [destruct Hb as (b0 & Eb0 & Hb0); exists b0; split; [exact Eb0|lia]|]. rewrite app_nil_r. apply Permutation_refl.
   Qed.
@@ -963,7 +967,7 @@ End LifeHist.
    types have both a non-trivial constructor and destructor and whose span sizes are of a
    trivially copyable type. *)
 Theorem whole_life_objects_balanced : forall L cap budget fixed aid junk bid tbid h,
-  wf_plist L = true -> (forall p, In p L -> ntc p = ntd p) -> cft L = true ->
+  wf_plist L = true -> (forall mv p, In p L -> ntc mv p = ntd p) -> cft L = true ->
   0 <= cap -> Forall (fun c => 0 <= c) fixed ->
   let v0 := fst (mkvec L cap budget fixed aid junk bid tbid) in
   let s0 := {| s_cap := cap; s_elems := [] |} in
@@ -990,13 +994,13 @@ Qed.
 
 (* the hypotheses are satisfiable: the list and history of NtRefine.refinement_every_list_applies *)
 Example whole_life_applies :
-  wf_plist ntL = true /\ (forall p, In p ntL -> ntc p = ntd p) /\ cft ntL = true /\
+  wf_plist ntL = true /\ (forall mv p, In p ntL -> ntc mv p = ntd p) /\ cft ntL = true /\
   shist_valid ntL (fixed_counts ntL []) {| s_cap := 3; s_elems := [] |} ntH /\
   lt_hist_ok {| s_cap := 3; s_elems := [] |} ntH /\
   length (keep born (snd (lrun ntL (fun _ => 170) (fst (mkvec ntL 3 40 [] 0 (fun _ => 170) 0 1), 2%nat) ntH))) = 11%nat.
 Proof.
   split; [reflexivity|]. split.
-  { intros p [<-|[<-|[]]]; reflexivity. }
+  { intros mv p [<-|[<-|[]]]; reflexivity. }
   split; [reflexivity|]. split; [|split].
   - cbn. repeat split; try lia; try discriminate; repeat constructor.
   - cbn. repeat split; lia.
